@@ -170,6 +170,9 @@ def corpus():
     add("raw-aws-token", lambda c: c.raw_command(b"config get cluster", end_tokens=b"\n\r\nEND\r\n"),
         b"CONFIG cluster 0 30\r\n1\nh|1.2.3.4|11211\n\r\nEN\n\r\nEND\r\n")
     add("raw-mn", lambda c: c.raw_command(b"mn", end_tokens=b"MN\r\n"), b"MMN\r\n")
+    add("raw-error-line", lambda c: c.raw_command(b"config get cluster", end_tokens=b"\n\r\nEND\r\n"), b"ERROR\r\n")
+    add("raw-client-error-line", lambda c: c.raw_command(b"x", end_tokens=b"END\r\n"), b"CLIENT_ERROR line format: command too long\r\n")
+    add("raw-server-error-line", lambda c: c.raw_command(b"x", end_tokens=b"XY"), b"SERVER_ERROR out of memory\r\n")
     add("raw-one-byte-token", lambda c: c.raw_command(b"version", end_tokens=b"\n"), b"VERSION some reply\r\n")
     add("raw-one-byte-token-dot", lambda c: c.raw_command(b"x", end_tokens=b"."), b"abc def,;:.")
     add("raw-two-byte-token", lambda c: c.raw_command(b"x", end_tokens=b"ab"), b"aaa aab")
